@@ -1065,4 +1065,140 @@ theorem toInt64_eq_trunc {x : F64} (hf : isFinite x = true)
     show (if trunc q < -9223372036854775808 ∨ trunc q > 9223372036854775807 then _ else trunc q) = _
     rw [if_neg (by omega)]
 
+/-! #### `ceil` -/
+
+theorem isFinite_ceil (x : F64) : isFinite (ceil x) = isFinite x := by
+  cases x with
+  | fin q => simp only [ceil]; split <;> rfl
+  | _ => rfl
+
+/-- item 6: `math.Ceil` of a finite value is the integer ceiling -/
+theorem toRat_ceil {x : F64} (hf : isFinite x = true) : toRat (ceil x) = ((toRat x).ceil : Rat) := by
+  cases x with
+  | nan => exact Bool.noConfusion hf
+  | inf _ => exact Bool.noConfusion hf
+  | zero _ =>
+    show (0 : Rat) = (((0 : Rat).ceil : Int) : Rat)
+    have := Rat.ceil_intCast 0
+    rw [Rat.intCast_zero] at this
+    rw [this, Rat.intCast_zero]
+  | fin q =>
+    simp only [ceil]
+    by_cases h : q.ceil = 0
+    · rw [if_pos h]; show (0 : Rat) = ((q.ceil : Int) : Rat); rw [h, Rat.intCast_zero]
+    · rw [if_neg h]; rfl
+
+theorem le_toRat_ceil {x : F64} (hf : isFinite x = true) : toRat x ≤ toRat (ceil x) := by
+  rw [toRat_ceil hf]; exact Rat.le_ceil
+
+theorem toRat_ceil_lt {x : F64} (hf : isFinite x = true) : toRat (ceil x) < toRat x + 1 := by
+  rw [toRat_ceil hf]; exact Rat.ceil_lt
+
+/-! #### arithmetic on finite values -/
+
+theorem WF_zero (s : Bool) : WF (.zero s) := trivial
+theorem WF_ofInt (i : Int) : WF (ofInt i) := WF_roundNE _
+theorem WF_ofConst (n : Int) (d : Nat) : WF (ofConst n d) := WF_roundNE _
+
+theorem WF_neg {x : F64} (h : WF x) : WF (neg x) := by
+  cases x with
+  | fin q =>
+    obtain ⟨hr, hlt, h0⟩ := WF.rep h
+    exact WF_fin_iff.2 ⟨hr.neg, by rwa [Rat.abs_neg], by grind⟩
+  | _ => trivial
+
+theorem roundNE_of_WF {q : Rat} (h : WF (.fin q)) : roundNE q = .fin q := h.2
+
+theorem roundNE_neg_of_WF {q : Rat} (h : WF (.fin q)) : roundNE (-q) = .fin (-q) :=
+  (WF_neg (x := .fin q) h).2
+
+theorem rnd_of_WF {q : Rat} (h : WF (.fin q)) : rnd q = q := rnd_of_rep (WF.rep h).1
+
+theorem WF_mul (a b : F64) : WF (mul a b) := by
+  cases a <;> cases b <;> simp only [mul] <;> first | trivial | exact WF_roundNE _
+
+theorem WF_div (a b : F64) : WF (div a b) := by
+  cases a <;> cases b <;> simp only [div] <;> first | trivial | exact WF_roundNE _
+
+theorem WF_add {a b : F64} (ha : WF a) (hb : WF b) : WF (add a b) := by
+  cases a <;> cases b <;> simp only [add] <;>
+    first | trivial | exact WF_roundNE _ | exact ha | exact hb | (split <;> trivial)
+
+theorem WF_sub {a b : F64} (ha : WF a) (hb : WF b) : WF (sub a b) := WF_add ha (WF_neg hb)
+
+theorem toRat_neg (x : F64) : toRat (neg x) = -(toRat x) := by
+  cases x <;> simp [neg, toRat]
+
+theorem isFinite_neg (x : F64) : isFinite (neg x) = isFinite x := by
+  cases x <;> rfl
+
+/-- product of finite values, below overflow: finite, value `rnd (a·b)` -/
+theorem toRat_mul {a b : F64} (fa : isFinite a = true) (fb : isFinite b = true)
+    (h : (toRat a * toRat b).abs ≤ maxFin) :
+    isFinite (mul a b) = true ∧ toRat (mul a b) = rnd (toRat a * toRat b) := by
+  cases a <;> cases b <;> simp only [isFinite, Bool.false_eq_true] at fa fb <;>
+    simp only [mul, toRat, Rat.zero_mul, Rat.mul_zero, rnd_zero] at h ⊢
+  · exact ⟨rfl, trivial⟩
+  · exact ⟨rfl, trivial⟩
+  · exact ⟨rfl, trivial⟩
+  · exact ⟨isFinite_roundNE_of_le h, toRat_roundNE_of_le h⟩
+
+/-- quotient of finite values, non-zero divisor, below overflow -/
+theorem toRat_div {a b : F64} (fa : isFinite a = true) (fb : isFinite b = true)
+    (hb : toRat b ≠ 0) (h : (toRat a / toRat b).abs ≤ maxFin) :
+    isFinite (div a b) = true ∧ toRat (div a b) = rnd (toRat a / toRat b) := by
+  cases a <;> cases b <;> simp only [isFinite, Bool.false_eq_true] at fa fb <;>
+    simp only [div, toRat, Rat.div_def, Rat.zero_mul, rnd_zero, ne_eq, not_true_eq_false] at h hb ⊢
+  · exact ⟨rfl, trivial⟩
+  · rw [← Rat.div_def] at h ⊢
+    exact ⟨isFinite_roundNE_of_le h, toRat_roundNE_of_le h⟩
+
+/-- sum of well-formed finite values, below overflow -/
+theorem toRat_add {a b : F64} (wa : WF a) (wb : WF b) (fa : isFinite a = true)
+    (fb : isFinite b = true) (h : (toRat a + toRat b).abs ≤ maxFin) :
+    isFinite (add a b) = true ∧ toRat (add a b) = rnd (toRat a + toRat b) := by
+  cases a <;> cases b <;> simp only [isFinite, Bool.false_eq_true] at fa fb <;>
+    simp only [add, toRat, Rat.zero_add, Rat.add_zero, rnd_zero] at h ⊢
+  · exact ⟨rfl, trivial⟩
+  · exact ⟨rfl, (rnd_of_WF wb).symm⟩
+  · exact ⟨rfl, (rnd_of_WF wa).symm⟩
+  · exact ⟨isFinite_roundNE_of_le h, toRat_roundNE_of_le h⟩
+
+theorem toRat_sub {a b : F64} (wa : WF a) (wb : WF b) (fa : isFinite a = true)
+    (fb : isFinite b = true) (h : (toRat a - toRat b).abs ≤ maxFin) :
+    isFinite (sub a b) = true ∧ toRat (sub a b) = rnd (toRat a - toRat b) := by
+  have := toRat_add wa (WF_neg wb) fa (by rw [isFinite_neg]; exact fb)
+    (by rw [toRat_neg, ← Rat.sub_eq_add_neg]; exact h)
+  rw [toRat_neg, ← Rat.sub_eq_add_neg] at this
+  exact this
+
+/-- multiplying by `float64(1)` is the identity on well-formed non-NaN values -/
+theorem mul_one_left {x : F64} (h : WF x) : mul (ofInt 1) x = x := by
+  rw [ofInt_exact (by decide) (by decide)]
+  cases x with
+  | nan => rfl
+  | inf b => simp only [mul, Rat.intCast_one, show decide ((1 : Rat) < 0) = false by decide]; cases b <;> rfl
+  | zero b => simp only [mul, Rat.intCast_one, show decide ((1 : Rat) < 0) = false by decide]; cases b <;> rfl
+  | fin q => simp only [mul, Rat.intCast_one, Rat.one_mul]; exact h.2
+
+/-- multiplying by `float64(-1)` is negation on well-formed values -/
+theorem mul_negone_left {x : F64} (h : WF x) : mul (ofInt (-1)) x = neg x := by
+  rw [ofInt_exact (by decide) (by decide)]
+  cases x with
+  | nan => rfl
+  | inf b =>
+    simp only [mul, neg, Rat.intCast_neg, Rat.intCast_one]
+    cases b <;> rfl
+  | zero b =>
+    simp only [mul, neg, Rat.intCast_neg, Rat.intCast_one]
+    cases b <;> rfl
+  | fin q =>
+    simp only [mul, neg, Rat.intCast_neg, Rat.intCast_one, Rat.neg_mul, Rat.one_mul]
+    exact roundNE_neg_of_WF h
+
+/-- multiplication by a fixed finite non-negative factor is monotone (IEEE `<=`) -/
+theorem mul_mono_left {a b d : Rat} (hd : 0 ≤ d) (h : a ≤ b) :
+    le (roundNE (a * d)) (roundNE (b * d)) = true :=
+  le_roundNE_of_le (Rat.mul_le_mul_of_nonneg_right h hd)
+
 end ScionTime.F64
